@@ -66,7 +66,8 @@ process:
 	atomic.StoreUint32(&m.status, idle)
 	user := atomic.LoadInt32(&m.num)
 	system := atomic.LoadInt32(&m.systemNum)
-	if user > 0 || system > 0 {
+	// 暂停期间仅有用户消息时无事可做：不再重新竞选，交由 Resume 唤醒，避免空转
+	if system > 0 || (user > 0 && atomic.LoadUint32(&m.paused) == 0) {
 		if atomic.CompareAndSwapUint32(&m.status, idle, processing) {
 			goto process
 		}
